@@ -29,7 +29,7 @@ def plan(tier):
     return {"shards": 16, "timeout": 1500 if tier == "quick" else 6 * 3600,
             "shard_env": sched.shard_env,
             "required_monitors": ["pixels-judged", "layers-judged", "vector-layers-judged", "pixel-grid",
-                                  "schedule-runs", "boundscheck-runs"],
+                                  "schedule-runs", "boundscheck-runs", "rendered-figures"],
             "required_tags": ["window-smaller-than-cell", "window-larger-than-domain", "origin-on-face", "oblique",
                               "ndim2", "ndim3", "dx-omitted"]}
 
